@@ -92,15 +92,43 @@ def coq_sources() -> list[str]:
     return out
 
 
-def coq_project() -> None:
-    """(Re)generate _CoqProject and Makefile when the file list changed."""
+def scope_dirs(prop: str | None) -> list[str] | None:
+    """Directories a property's build may see: Lib, its own, and its declared coq_deps
+    (transitively).  None = the whole project."""
+    if prop is None:
+        return None
+    seen, todo = [], [prop]
+    while todo:
+        d = todo.pop()
+        if d in seen:
+            continue
+        seen.append(d)
+        m = VERIF / "props" / d / "meta.json"
+        if m.exists():
+            try:
+                todo += json.loads(m.read_text()).get("coq_deps", [])
+            except Exception:
+                pass
+    return ["Lib"] + seen
+
+
+def coq_project(scope: str | None = None) -> str:
+    """(Re)generate _CoqProject[.scope] and Makefile[.scope] when the file list changed.
+    Returns the Makefile name.  A scoped project only lists Lib + the property's own
+    directory + its coq_deps, so that unrelated half-written files cannot disturb it."""
     files = coq_sources()
+    dirs = scope_dirs(scope)
+    suffix = "" if scope is None else f".{scope}"
+    if dirs is not None:
+        files = [f for f in files if f.split("/")[0] in dirs]
     text = "-Q . V\n-arg -w -arg -notation-overridden,-deprecated-hint-without-locality,-deprecated-instance-without-locality,-ambiguous-paths\n" + "\n".join(files) + "\n"
-    changed = write_if_changed(COQ / "_CoqProject", text)
-    if changed or not (COQ / "Makefile").exists():
-        rc, out = sh(["coq_makefile", "-f", "_CoqProject", "-o", "Makefile"], cwd=COQ)
+    changed = write_if_changed(COQ / f"_CoqProject{suffix}", text)
+    mk = f"Makefile{suffix}"
+    if changed or not (COQ / mk).exists():
+        rc, out = sh(["coq_makefile", "-f", f"_CoqProject{suffix}", "-o", mk], cwd=COQ)
         if rc != 0:
             raise RuntimeError("coq_makefile failed:\n" + out)
+    return mk
 
 
 def forbidden_scan(files: list[Path]) -> list[str]:
@@ -166,11 +194,11 @@ class _BuildLock:
         self.f.close()
 
 
-def coq_make(targets: list[str], jobs: int = 16, timeout: int = 1500) -> CoqResult:
+def coq_make(targets: list[str], jobs: int = 16, timeout: int = 1500, scope: str | None = None) -> CoqResult:
     """Full .vo build of the given targets (paths relative to coq/, .vo)."""
     with _BuildLock():
-        coq_project()
-        rc, out = sh(["make", f"-j{jobs}", "-k"] + targets, cwd=COQ, timeout=timeout)
+        mk = coq_project(scope)
+        rc, out = sh(["make", "-f", mk, f"-j{jobs}", "-k"] + targets, cwd=COQ, timeout=timeout)
     failed = None
     if rc != 0:
         m = re.search(r'File "\./([^"]+)", line (\d+)', out)
@@ -286,14 +314,14 @@ class Ctx:
 
     def coq_make(self, targets: list[str] | None = None, timeout: int = 1500) -> CoqResult:
         targets = targets or [f"{self.prop}/Props.vo"]
-        return coq_make(targets, timeout=timeout)
+        return coq_make(targets, timeout=timeout, scope=self.prop)
 
     def coq_props(self, props_file: str | None = None, extra_scan: list[str] | None = None) -> dict:
         """Build the property's theorem file and everything under it, then re-run coqc on
         the Props file itself to collect Print Assumptions.  Returns a dict with
         ok, obligations, discharged, axioms, log, failed."""
         rel = props_file or f"{self.prop}/Props.v"
-        res = coq_make([rel[:-2] + ".vo"])
+        res = coq_make([rel[:-2] + ".vo"], scope=self.prop)
         props_path = COQ / rel
         # obligations = theorems in every project file the Props file depends on inside
         # this property's directory + the Props file itself
@@ -303,7 +331,9 @@ class Ctx:
         info = {"ok": res.ok, "obligations": len(names), "discharged": 0, "axioms": [],
                 "log": res.log, "failed": res.failed, "theorems": names,
                 "props_theorems": count_theorems(props_path) if props_path.exists() else []}
-        scan_files = sorted(self.coqdir.glob("*.v")) + sorted((COQ / "Lib").glob("*.v"))
+        scan_files = []
+        for d in scope_dirs(self.prop):
+            scan_files += sorted((COQ / d).glob("*.v"))
         for e in extra_scan or []:
             scan_files += sorted((COQ / e).glob("*.v"))
         hits = forbidden_scan(scan_files)
